@@ -22,6 +22,27 @@ MI = 'fsic.core.interfaces.ModelInterface'
 SPAN_LEN = ("len(self.__dict__['span'])", 'len(self.span)', 'len(span)')
 
 
+def _read_target(f: Fn, n, target: ast.AST) -> ast.AST:
+    """A store target with the locals it mentions read through (`key = '_' + name; d[key] = v` stores to `d['_' + name]`)."""
+    import copy as _copy
+
+    class L(ast.NodeTransformer):
+        def visit_Name(self, node):
+            return ast.copy_location(ast.Name(id=node.id, ctx=ast.Load()), node)
+
+        def visit_Subscript(self, node):
+            self.generic_visit(node)
+            node.ctx = ast.Load()
+            return node
+
+        def visit_Attribute(self, node):
+            self.generic_visit(node)
+            node.ctx = ast.Load()
+            return node
+
+    return f.expand(n.id, ast.fix_missing_locations(L().visit(_copy.deepcopy(target))))
+
+
 def _whole_array_stores(f: Fn):
     """Statements `X.__dict__['_' + name] = v` (replace a series' backing array)."""
     out = []
@@ -29,7 +50,7 @@ def _whole_array_stores(f: Fn):
         a = n.ast
         if n.kind != 'stmt' or not isinstance(a, ast.Assign) or len(a.targets) != 1:
             continue
-        ds = dict_slot(a.targets[0])
+        ds = dict_slot(_read_target(f, n, a.targets[0])) if isinstance(a.targets[0], ast.Subscript) else None
         if ds is None:
             continue
         key = ds[1]
@@ -92,6 +113,7 @@ def _dimension_guards(f: Fn, nid: int, arr: str) -> Tuple[bool, bool]:
         if not raises:
             continue
         for atom in disj_atoms(tn.ast):
+            atom = f.expand(tn.id, atom, stop=(arr,))
             t = text(atom)
             c = cmp_of(atom)
             if c is not None and c.op == '!=':
@@ -172,14 +194,14 @@ def r2_dtype(R) -> None:
             src = v
         if src is not None and is_call(src, 'np.array', 'numpy.array', 'np.asarray'):
             d = kwarg(src, 'dtype')
-            ok = d is not None and text(d) == old + '.dtype'
+            ok = d is not None and f.etext(n.id, d) == old + '.dtype'
         elif src is not None and method_call(src, 'astype'):
-            ok = text(src.args[0]) == old + '.dtype'
+            ok = f.etext(n.id, src.args[0]) == old + '.dtype'
         R.check(ok, f.q, f'dtype:{text(src)[:60] if src is not None else "?"}', 'a replaced series is built with the old series\' dtype',
                 f'`{text(src)[:70] if src is not None else text(v)}` does not impose the existing dtype `{old}.dtype`', where=f.where(n))
     # scalar path: in-place slice store
     inplace = [n for n in f.cfg.nodes if n.kind == 'stmt' and isinstance(n.ast, ast.Assign) and isinstance(n.ast.targets[0], ast.Subscript)
-               and dict_slot(n.ast.targets[0].value) is not None and isinstance(n.ast.targets[0].slice, ast.Slice)]
+               and isinstance(n.ast.targets[0].slice, ast.Slice) and dict_slot(_read_target(f, n, n.ast.targets[0].value)) is not None]
     R.check(len(inplace) == 1 and text(inplace[0].ast.targets[0].slice) == ':', f.q, 'scalar-inplace', 'a scalar is broadcast in place (`[:] =`), keeping shape and dtype',
             'the scalar path does not assign through `[:]`', where=f.fi.where)
     # values setters
@@ -217,7 +239,8 @@ def r2_dtype(R) -> None:
     h = Fn(R, f'{VC}.reindex')
     for (n, owner, key, v) in _whole_array_stores(h):
         d = kwarg(v, 'dtype') if isinstance(v, ast.Call) else None
-        R.check(d is not None and text(d) in ('self[name].dtype', "self.__dict__['_' + name].dtype"), h.q, 'reindex-dtype', 'reindexed series keep the old dtype',
+        nm_ = text(is_underscore_key(key)) if is_underscore_key(key) is not None else 'name'
+        R.check(d is not None and h.etext(n.id, d, stop=(nm_,)) in (f'self[{nm_}].dtype', f"self.__dict__['_' + {nm_}].dtype"), h.q, 'reindex-dtype', 'reindexed series keep the old dtype',
                 f'`{text(v)[:70]}` does not use the old series dtype', where=h.where(n))
 
 
